@@ -1,5 +1,6 @@
 /* C01: decoding arbitrary bytes is memory-safe, terminating and error-reporting */
 #include "exec_common.h"
+#include <malloc.h>
 
 #define C01_RND(m) ((int)((rs = c03_mix(rs)) % (unsigned long long)(m)))
 #define C01_P(pct) (C01_RND(100) < (pct))
@@ -237,14 +238,22 @@ static int c01_dfz(toks_t *t)
 {
   int api = (int)tl(t, 1); unsigned long long os = (unsigned long long)tll(t, 2); size_t n; unsigned char *b = hex2bytes(t->tok[3], &n);
   unsigned char *o1 = NULL, *o2 = NULL; size_t s1 = 0, s2 = 0; char d1[200] = "", d2[200] = ""; int r1, r2;
-  if (api == 4) { r1 = c01_reuse_run(b, n, os, 1, &o1, &s1, d1, sizeof(d1)); r2 = c01_reuse_run(b, n, os, 0, &o2, &s2, d2, sizeof(d2)); }
-  else if (api <= 2) { r1 = c01_tj_run(b, n, api, os, 0x5A, &o1, &s1, d1, sizeof(d1)); r2 = c01_tj_run(b, n, api, os, 0xC3, &o2, &s2, d2, sizeof(d2)); }
-  else { r1 = c01_lj_run(b, n, os, 0x5A, &o1, &s1, d1, sizeof(d1)); r2 = c01_lj_run(b, n, os, 0xC3, &o2, &s2, d2, sizeof(d2)); }
+  /* the two runs also differ in what freshly allocated heap memory contains (glibc builds; the ASan allocator fills with a constant):
+     output that comes from never-written working memory of the library then differs as well */
+  mallopt(M_PERTURB, 0x11);
+  if (api == 4) r1 = c01_reuse_run(b, n, os, 1, &o1, &s1, d1, sizeof(d1));
+  else if (api <= 2) r1 = c01_tj_run(b, n, api, os, 0x5A, &o1, &s1, d1, sizeof(d1));
+  else r1 = c01_lj_run(b, n, os, 0x5A, &o1, &s1, d1, sizeof(d1));
+  mallopt(M_PERTURB, 0xE2);
+  if (api == 4) r2 = c01_reuse_run(b, n, os, 0, &o2, &s2, d2, sizeof(d2));
+  else if (api <= 2) r2 = c01_tj_run(b, n, api, os, 0xC3, &o2, &s2, d2, sizeof(d2));
+  else r2 = c01_lj_run(b, n, os, 0xC3, &o2, &s2, d2, sizeof(d2));
+  mallopt(M_PERTURB, 0);
   printf("R skip %d %s\n", r1, d1);
   if (r1 != r2) printf("O fail dfz: two identical calls ended differently (%d / %d): %s | %s\n", r1, r2, d1, d2);
   else if (r1 == 0 && (s1 != s2 || (s1 && memcmp(o1, o2, s1)))) {
     size_t k = 0; while (k < s1 && k < s2 && o1[k] == o2[k]) k++;
-    printf("O fail dfz: output reported as produced depends on what the buffer held before the call (byte %zu of %zu: 0x%02x / 0x%02x): %s\n", k, s1, o1 ? o1[k] : 0, o2 ? o2[k] : 0, d1);
+    printf("O fail dfz: output reported as produced depends on what the buffer or fresh heap memory held before the call (byte %zu of %zu: 0x%02x / 0x%02x): %s\n", k, s1, o1 ? o1[k] : 0, o2 ? o2[k] : 0, d1);
   } else printf("O ok\n");
   free(o1); free(o2); free(b);
   return 1;
